@@ -611,6 +611,29 @@ func checkChannelDelete(r *Run, p *Prog, la *LockAnalysis) {
 			r.Ob("C02.R4.delete", name+" renames then removes", p.Position(top.Pos()), false, fmt.Sprintf("renames=%d removes=%d", len(renames), len(removes)))
 			continue
 		}
+		// every channel that left the map also leaves the file system: after a successful
+		// removeChannel the iteration (or the function) does not end without the rename
+		for i, rc := range CallsIn(top, calleeIs(remove)) {
+			c := p.CFG(top)
+			rp, ok := c.Locate(rc)
+			if !ok {
+				continue
+			}
+			errObj := errVarOfCall(top, rc)
+			var blocked map[edge]bool
+			if errObj != nil {
+				// only the nil edge of the call's error continues
+				blocked = c.EdgesEstablishing(func(atom ast.Expr, val bool) bool {
+					o, trueMeansNil, ok := nilCompare(top, atom)
+					return ok && o == errObj && val != trueMeansNil
+				})
+			}
+			pth := c.leavesWithout(rp, enclosingLoop(top, rc), blocked, func(n ast.Node) bool {
+				return nodeHasCall(top, n, func(o types.Object, cc *ast.CallExpr) bool { return isFSRename(o, cc) })
+			})
+			r.ObPath("C02.R4.delete", fmt.Sprintf("%s: removeChannel #%d is followed by the directory rename", name, i+1), p.Position(rc.Pos()), pth == nil,
+				"a channel removed from the maps whose directory keeps its numeric name is rebuilt from that directory by the next Open", pth)
+		}
 		newNames := map[types.Object]bool{}
 		for i, rn := range renames {
 			c := p.CFG(rn.Fn)
